@@ -289,6 +289,16 @@ startConn:
 	// Reset the state.
 	c.state.reset(false)
 
+	// Drop whatever a previous connection left behind in the queues.
+	for drained := false; !drained; {
+		select {
+		case <-c.rx:
+		case <-c.tx:
+		default:
+			drained = true
+		}
+	}
+
 	addr := c.server()
 
 	if mock == nil {
